@@ -193,6 +193,16 @@ where
                     return Err(Fail::with(format!("{}: Wnaf base().scalar() != [k]P at window {}", name, w), json!({"k": hex(&s255[j])})));
                 }
             }
+            // the same table through shared(): a fresh digit buffer borrowing the table (the cross-thread API)
+            {
+                let mut sh = wb.shared();
+                for j in (lo..hi).step_by(3) {
+                    let got: C::P = sh.scalar(reprs255[j]);
+                    if g.abs(&got) != Some(g.mul_big(d[1], &s255[j])) {
+                        return Err(Fail::with(format!("{}: Wnaf base().shared().scalar() != [k]P at window {}", name, w), json!({"k": hex(&s255[j])})));
+                    }
+                }
+            }
             bump((hi - lo) as u64 - 1);
             Ok(if d[1] == 0 { "" } else { "wnaf base-then-scalar" })
         },
@@ -221,6 +231,13 @@ where
             let got: C::P = ws.base(g.rep(d[1], &lambdas[2]));
             if g.abs(&got) != Some(g.mul_big(d[1], &s255[d[0]])) {
                 return Err(Fail::new(format!("{}: Wnaf scalar().base() != [k]P at window {}", name, w)));
+            }
+            if w <= 8 {
+                // the same digits through shared(): a fresh table buffer borrowing the digits
+                let got2: C::P = ws.shared().base(g.rep(d[1], &lambdas[0]));
+                if g.abs(&got2) != Some(g.mul_big(d[1], &s255[d[0]])) {
+                    return Err(Fail::new(format!("{}: Wnaf scalar().shared().base() != [k]P at window {}", name, w)));
+                }
             }
             Ok(if d[1] == 0 || s255[d[0]].is_zero() { "" } else { "wnaf scalar-then-base" })
         },
@@ -744,16 +761,26 @@ pub fn run(ctx: &Ctx) -> (&'static str, &'static str) {
     ctx.extra("scalar alphabet", json!({"all": s_all.len(), "below 2^255": s255.len(), "weight<=2 complete": full}));
     let windows: Vec<usize> = (2..=22).collect();
     let small_windows: Vec<usize> = if ctx.quick() { vec![2, 3, 4, 5, 8, 13, 18, 22] } else { windows.clone() };
-    toy_paths::<T19_4>(ctx, &s_all, &small_windows);
-    if !ctx.quick() {
-        let s_small = scalar_alphabet(ctx, false, 40);
-        toy_paths::<T7_2>(ctx, &s_small, &[2, 3, 4, 7, 12]);
-        toy_paths::<T19_5>(ctx, &s_small, &[2, 3, 4, 7, 12]);
-        toy_paths::<T19X2>(ctx, &s_small, &[2, 4, 9]);
+    #[cfg(feature = "toy")]
+    {
+        toy_paths::<T19_4>(ctx, &s_all, &small_windows);
+        if !ctx.quick() {
+            let s_small = scalar_alphabet(ctx, false, 40);
+            toy_paths::<T7_2>(ctx, &s_small, &[2, 3, 4, 7, 12]);
+            toy_paths::<T19_5>(ctx, &s_small, &[2, 3, 4, 7, 12]);
+            toy_paths::<T19X2>(ctx, &s_small, &[2, 4, 9]);
+        }
     }
+    #[cfg(not(feature = "toy"))]
+    ctx.degraded("toy-curve multiplication paths");
     zgroup_checks(ctx, &s255, &windows);
     zgroup_histories(ctx, ctx.tier.pick(2, 3));
-    toy_histories::<T19_4>(ctx, 2);
+    #[cfg(feature = "toy")]
+    {
+        toy_histories::<T19_4>(ctx, 2);
+    }
+    #[cfg(not(feature = "toy"))]
+    ctx.degraded("toy-curve wNAF reuse histories");
     // real curves
     let mut rng = ctx.rng("c02.points");
     let mut specials = alpha::scalar_specials(r());
